@@ -629,6 +629,19 @@ def rule_distinct_count_names(ctx, rule_id="O9.7c"):
     decide(ctx, rule_id, "DistinctCount rule: names besides the counted field", qualname, cell, min_cells=len(DISTINCT_COUNT_RULES))
 
 
+def rule_malformed_ranges_are_refused(ctx, rule_id="O9.12"):
+    """O9.12: "a well-formed length and rule": lengths, Integer / Decimal rules and allowed characters are read by the
+    Range / DecimalRange constructors; a description that is not a list of items with at most two limits around one
+    ellipsis (``1...5...``, ``1......5``) or that holds no item at all (``,``) is an InterfaceError - decided on every
+    token sequence up to the bound (C01's constructor table in refusal mode)."""
+    from .c01 import DECIMAL_RANGE, RANGE, constructor_table
+
+    ctx.res.minimum(rule_id, 2)
+    bound = 6 if ctx.thorough else 5
+    constructor_table(ctx, rule_id, RANGE, bound, mode="refusal")
+    constructor_table(ctx, rule_id, DECIMAL_RANGE, bound, mode="refusal")
+
+
 # ------------------------------------------------------------------------------------------------- O9.5
 def rule_located_errors(ctx):
     """Every raise of InterfaceError reachable from Cid.read has a location or is wrapped by the field-construction handler."""
@@ -737,4 +750,4 @@ def rule_overlapping_items(ctx):
     items_overlap_table(ctx, "O9.10")
 
 
-RULES = [rule_row_dispatch, rule_row_order, rule_field_names, rule_field_row, rule_check_row, rule_is_unique_rule, rule_distinct_count_rule, rule_distinct_count_names, rule_located_errors, rule_known_types, rule_overlapping_items, rule_module_state]
+RULES = [rule_row_dispatch, rule_row_order, rule_field_names, rule_field_row, rule_check_row, rule_is_unique_rule, rule_distinct_count_rule, rule_distinct_count_names, rule_malformed_ranges_are_refused, rule_located_errors, rule_known_types, rule_overlapping_items, rule_module_state]
